@@ -690,10 +690,14 @@ pub fn check_references(context: &Context) -> Result<u32, &'static str>
         info!("[ref: 15] Found {} file(s)", finder.code_files.len());
 
         let missing_reference_count =
-            process_references::<CountMissingReferenceIdProcessor, u32, u32, u32>(
+            match process_references::<CountMissingReferenceIdProcessor, u32, u32, u32>(
                 context, None, &finder,
             )
-            .map_or(0, |id| id);
+            {
+                Some(count) => count,
+                /* An interrupted check hasn't looked at every file, so it can't pass. */
+                None => return Err("Check did not complete"),
+            };
 
         if missing_reference_count > 0
         {
